@@ -93,14 +93,14 @@ def small_width_models(ctx, which=("word", "alu")):
 def run_C01(ctx):
     small_width_models(ctx)
     rate = 24 if ctx.quick else 1
-    recs = exec_cases(ctx, "isa", ["alu", "jmp", "far", "mem"], rate, timeout=1500)
+    recs = exec_cases(ctx, "isa", ["alu", "jmp", "far", "farcall", "mem"], rate, timeout=1500)
     ctx.nontrivial = len({json.dumps(r["case"]["id"]) for r in recs})
     replay_exec(ctx, "isa", recs, ["interp"])
 
 
 def run_C03(ctx):
     rate = 24 if ctx.quick else 1
-    recs = exec_cases(ctx, "isa", ["alu", "jmp", "far", "mem"], rate, timeout=1500)
+    recs = exec_cases(ctx, "isa", ["alu", "jmp", "far", "farcall", "mem"], rate, timeout=1500)
     ctx.nontrivial = len({json.dumps(r["case"]["id"]) for r in recs})
     rep = replay_exec(ctx, "isa", recs, ["jit"], pair="interp")
     ctx.disagreements_checked = rep.get("disagreements_checked", 0)
@@ -108,7 +108,7 @@ def run_C03(ctx):
 
 def run_C04(ctx):
     rate = 24 if ctx.quick else 1
-    recs = exec_cases(ctx, "isa", ["alu", "jmp", "far", "mem"], rate, timeout=1500)
+    recs = exec_cases(ctx, "isa", ["alu", "jmp", "far", "farcall", "mem"], rate, timeout=1500)
     ctx.nontrivial = len({json.dumps(r["case"]["id"]) for r in recs})
     rep = replay_exec(ctx, "isa", recs, ["cl"], pair="interp")
     ctx.disagreements_checked = rep.get("disagreements_checked", 0)
@@ -133,7 +133,38 @@ def run_C11(ctx):
     ctx.extra["must_be_performed"] = sum(1 for r in recs if r["exp"]["k"] == "ok")
 
 
+def run_C07(ctx):
+    rate = 2 if ctx.quick else 1
+    recs = exec_cases(ctx, "calls", ["calls", "farcall"], rate, timeout=1500)
+    ctx.nontrivial = len({json.dumps(r["case"]["id"]) for r in recs})
+    replay_exec(ctx, "calls", recs, ["interp", "jit"])
+    ctx.extra["depths"] = sorted({r["case"]["id"][1] for r in recs if r["case"]["id"][0] in ("chain", "rec")})
+    ctx.extra["error_outcomes"] = sum(1 for r in recs if r["exp"]["k"] == "err")
+
+
+def run_C08(ctx):
+    rate = 3 if ctx.quick else 1
+    recs = exec_cases(ctx, "helpers", ["helpers"], rate, timeout=1500)
+    ctx.nontrivial = len({json.dumps(r["case"]["id"]) for r in recs})
+    replay_exec(ctx, "helpers", recs, ["interp", "jit", "cl"])
+    ctx.extra["unregistered_id_cases"] = sum(1 for r in recs if r["exp"]["class"] == "nohelper")
+    ctx.extra["helper_calls_expected"] = sum(len(r["exp"]["hlog"]) for r in recs)
+
+
+def run_C09(ctx):
+    rate = 4 if ctx.quick else 1
+    recs = exec_cases(ctx, "ctx", ["ctx"], rate, timeout=1500)
+    ctx.nontrivial = len({json.dumps(r["case"]["id"]) for r in recs})
+    replay_exec(ctx, "ctx", recs, ["interp", "jit", "cl"])
+
+
 CHECKS = {
+    "C07": {"level": "model_checking", "run": run_C07, "assumptions": ASSUME_COMMON,
+            "rule": "Cases.tla family calls: chains of nested local calls of depth 0..9 in forward and backward layout x 7 frame-size calculators (none, constant 0/16/64/256/512, per-entry table), bounded recursion depth 1..10, far calls; every function checks its callee-saved registers, r10, its own stack slot and the pass-through of r0-r5; Machine.tla (invariants DepthBound, FramePointerOK) gives the outcome incl. depth / stack errors; replayed on interpreter and x86-64 JIT"},
+    "C08": {"level": "model_checking", "run": run_C08, "assumptions": ASSUME_COMMON + ["instrumented helpers read rsp with inline asm and compare it with the value seen when the same function is called from Rust"],
+            "rule": "Cases.tla family helpers: ids {0,1,6,2^31-1,2^31,2^32-1} x 5 argument tuples from V64 x call depth 0..3 x 1-3 calls per program x registered sets {exact, superset, missing one}; Machine!ExecCallHelper logs the expected calls; instrumented helpers in the harness log the actual ones (id, arguments, stack alignment) on interpreter, JIT and Cranelift"},
+    "C09": {"level": "model_checking", "run": run_C09, "assumptions": ASSUME_COMMON,
+            "rule": "Cases.tla family ctx: 12 probe programs x 4 VM kinds x 6 packet lengths (incl. 0) x 9 (data_offset, data_end_offset) pairs (either order, adjacent, 4096, 65536) x cold/warm (an earlier execution with another packet); Exec!InitFor gives the context; replayed on the three engines"},
     "C01": {"level": "model_checking", "run": run_C01, "assumptions": ASSUME_COMMON,
             "rule": "TLC enumerates Cases.tla families alu/jmp/far/mem (every ALU/JMP/JMP32/endian/load/store opcode x boundary operands V64/I32/OFFS x register pairs; branches at instruction indices up to 983,045), Machine.tla computes the outcome, the harness replays each case on the real interpreter; a case is non-trivial/distinct by its id tuple (family tag, opcode, registers, operand indices, immediate)"},
     "C02": {"level": "model_checking", "run": run_C02, "assumptions": ASSUME_COMMON,
@@ -183,4 +214,15 @@ MANIFEST_TEXT = {
             "text": "The bounds family of C02 restricted to packet/metadata/stack: the compiled code must return the specified value for in-bounds accesses and die by the trap signal exactly where the specification refuses the access; any other signal or a returned value is a violation.",
             "note": NOTE_COMMON},
 }
+MANIFEST_TEXT.update({
+    "C07": {"technique": "TLA+ call-frame machine model-checked over call-graph families; cases replayed on interpreter and x86-64 JIT",
+            "text": "TLC explores every generated call chain (depth 0-9, both displacement signs, 7 calculators, recursion) with frame invariants on; each behaviour - returned fold of r6-r10, stack slots and pass-through registers, or the depth/stack error - is replayed on the interpreter, and on the JIT for the clauses the JIT claims.",
+            "note": NOTE_COMMON + " The 'yields an error' clauses are checked on the interpreter only (the JIT performs no run-time checks by design). The JIT's shared frame is a recorded known finding (jit_r10)."},
+    "C08": {"technique": "TLA+ helper-call action model-checked; expected call logs compared with instrumented helpers on three engines",
+            "text": "For every generated program the specification yields the exact sequence of helper invocations (id, five arguments) and the final fold of r0/r6-r10; the harness's instrumented helpers record what each engine really calls, with which arguments and stack alignment; unregistered ids must be an interpreter error when reached and a compile error in both compilers.",
+            "note": NOTE_COMMON},
+    "C09": {"technique": "TLA+ InitFor context model; probe programs replayed on 4 VM kinds x 3 engines",
+            "text": "Probe programs read r1, the two packet pointers of the fixed metadata buffer, packet loads and the stack limits; the specification's InitFor states what each VM kind must present, with the caller-owned buffers at fixed addresses so pointer values themselves are compared.",
+            "note": NOTE_COMMON + " For an empty packet only data_end - data = 0 is required (pointer value free)."},
+})
 NOT_APPLICABLE = {}
